@@ -1,6 +1,8 @@
 mod cas;
 mod checks_e1;
+mod checks_e2;
 mod e1;
+mod e2;
 mod gen;
 mod model;
 mod par;
@@ -24,6 +26,13 @@ fn main() {
             let serve = args.iter().any(|a| a == "--serve");
             session::child_main(dir, serve);
         }
+        "e2" => {
+            let mode = args.get(2).unwrap_or_else(|| usage()).clone();
+            let seed: u64 = args.get(3).and_then(|s| s.parse().ok()).unwrap_or(1);
+            let first: u64 = args.get(4).and_then(|s| s.parse().ok()).unwrap_or(0);
+            let count: u64 = args.get(5).and_then(|s| s.parse().ok()).unwrap_or(1);
+            e2::worker_main(&mode, seed, first, count);
+        }
         "check" => {
             let prop = args.get(2).unwrap_or_else(|| usage()).clone();
             let tier = report::tier_from_env(args.get(3).map(|s| s.as_str()));
@@ -34,6 +43,9 @@ fn main() {
                 "C07" => checks_e1::run("C07", &tier, seed),
                 "C08" => checks_e1::run("C08", &tier, seed),
                 "C09" => checks_e1::run("C09", &tier, seed),
+                "C02" => checks_e2::run("C02", &tier, seed),
+                "C03" => checks_e2::run("C03", &tier, seed),
+                "C11" => checks_e2::run("C11", &tier, seed),
                 _ => {
                     eprintln!("no check for {}", prop);
                     2
